@@ -179,7 +179,7 @@ def round_record(ctx: Ctx, rid: int, rng: random.Random, kind: str) -> dict | No
         for op in shape.operations:
             pa = op.point_array
             on = sum(1 for p in pa[:4] if abs(vdist(p, c1) - r1) < tol) + sum(1 for p in pa[4:] if abs(vdist(p, c2) - r2) < tol)
-            ents.append([id(op) in core_ids, id(op) in shell_ids, on >= 4])
+            ents.append([id(op) in core_ids, id(op) in shell_ids, on >= 4, True])
     else:
         core_ids = {id(f) for f in sketch.core}
         shell_ids = {id(f) for f in sketch.shell}
@@ -207,7 +207,26 @@ def round_record(ctx: Ctx, rid: int, rng: random.Random, kind: str) -> dict | No
                 return abs(vdist(p, c0) - radius) < tol
         for face in sketch.faces:
             on = sum(1 for p in face.point_array if on_outer(list(p)))
-            ents.append([id(face) in core_ids, id(face) in shell_ids, on >= 2])
+            ents.append([id(face) in core_ids, id(face) in shell_ids, on >= 2, True])
+    if kind in ("qspline", "hspline", "fspline"):
+        # the same sketch extruded (and the extruded shape stacked): grid[0] / grid[1] of the SHAPE address the operations
+        # over the core / shell faces, and every operation stands on one location of the sketch with both of its ends
+        try:
+            height = 1.3 * s
+            shape = cb.ExtrudedShape(sketch, height)
+            normal = [float(x) for x in sketch.normal]
+            normal = vmul(normal, 1.0 / vnorm(normal))
+            core_ids = {id(o) for o in shape.grid[0]}
+            shell_ids = {id(o) for o in shape.grid[1]}
+            for op in shape.operations:
+                pa = [list(p) for p in op.point_array]
+                on_b = sum(1 for p in pa[:4] if on_outer(p))
+                on_t = sum(1 for p in pa[4:] if on_outer(vsub(p, vmul(normal, height))))
+                coherent = all(vdist(pa[i + 4], vadd(pa[i], vmul(normal, height))) < tol for i in range(4))
+                ents.append([id(op) in core_ids, id(op) in shell_ids, on_b >= 2 and on_t >= 2, coherent])
+        except Exception as err:  # pylint: disable=broad-except
+            ctx.violation(f"round-raises:{kind}:extruded:{type(err).__name__}", str(err), {"kind": kind})
+            return None
     ctx.evaluated(f"round:{kind}")
     return {"id": rid, "kind": "round", "stack": kind, "nx": 0, "ny": 0, "nz": 0, "grid": [], "slices": [], "deleted": [], "entities": ents}
 
